@@ -26,7 +26,7 @@ theorem callSp_ge (st : St) (o : Outcome) : st.sp ≤ (step cfg st (.call o)).sp
   cases o with
   | ok => simp [step]
   | err k => simp [step]
-  | panic k => cases k <;> simp [step] <;> omega
+  | panic k => cases k <;> simp only [step] <;> (try split) <;> omega
 
 theorem good_step (cfg : Cfg) (hc : cfg.resetSp = -1) (st : St) (i : Inv) (hg : Good st) :
     Good (step cfg st i) := by
@@ -81,7 +81,7 @@ theorem run_step_exact (st : St) (hg : Good st) (f : Bool) (o : Outcome) :
     rw [this]
 
 /-- **invocation_leaves_result_only** — after ANY history of invocations on a fresh VM (any
-    length, any outcomes, the known finding's panicking Calls included) a finished RunCode of any
+    length, any outcomes, panicking Calls included) a finished RunCode of any
     code object — the same as before, another one, the main code — leaves sp = 0 and fp = 0:
     exactly its result; so does a Run that had code to run; a Run with nothing new leaves the
     stack empty. -/
@@ -106,8 +106,10 @@ theorem failed_invocation_leaves_own_operands (h : List Inv) (c : Nat) (o : Outc
   rw [runHist_append]
   exact (runCode_step_exact _ (good_runHist implCfg rfl h init good_init) c o).1
 
-/-- Call hands its result to the host: outside the finding's guard it leaves sp and fp as they were -/
-theorem call_neutral (cfg : Cfg) (st : St) (o : Outcome) (hg : (Inv.call o).callPanics = false) :
+/-- Call hands its result to the host: whatever its outcome — finished, error, cancelled, a
+    recovered panic with any number of operands pending — it leaves sp and fp as they were
+    (every configuration whose callFunction cleans up on every exit; the code as it is: implCfg) -/
+theorem call_neutral (cfg : Cfg) (hc : cfg.callCleans = true) (st : St) (o : Outcome) :
     (step cfg st (.call o)).sp = st.sp ∧ (step cfg st (.call o)).fp = st.fp := by
   refine ⟨?_, rfl⟩
   cases o with
@@ -116,26 +118,29 @@ theorem call_neutral (cfg : Cfg) (st : St) (o : Outcome) (hg : (Inv.call o).call
   | panic k =>
     cases k with
     | zero => rfl
-    | succ k => simp [Inv.callPanics] at hg
+    | succ k => simp [step, hc]
 
-/-- outside the guard of the known finding the code as it is meets the Spec at every step of
-    every history: same sp, same fp -/
-theorem impl_meets_spec (st : St) (hg : Good st) (i : Inv) (hi : i.callPanics = false) :
+/-- the code as it is meets the Spec at every step of every history, whatever the invocation and
+    its outcome: same sp, same fp (no guard since the repair of C04-call-panic-leaks-slot) -/
+theorem impl_meets_spec (st : St) (hg : Good st) (i : Inv) :
     (step implCfg st i).sp = (specStep st i).sp ∧ (step implCfg st i).fp = (specStep st i).fp := by
   cases i with
   | runCode c o => exact ⟨(runCode_step_exact st hg c o).1, rfl⟩
   | run f o => exact ⟨(run_step_exact st hg f o).1, rfl⟩
-  | call o => exact call_neutral implCfg st o hi
+  | call o => exact call_neutral implCfg rfl st o
 
 def maxPending (h : List Inv) : Nat := h.foldl (fun m i => max m i.pending) 0
 
 /-- the full claim: whatever the history, the stack never holds more than one result or the
     operands ONE failed invocation abandoned -/
-def Host_full : Prop :=
-  ∀ (h : List Inv) (B : Nat), 1 ≤ B → (∀ i ∈ h, i.pending ≤ B) → (runHist implCfg init h).sp + 1 ≤ B
+def Host_fullFor (cfg : Cfg) : Prop :=
+  ∀ (h : List Inv) (B : Nat), 1 ≤ B → (∀ i ∈ h, i.pending ≤ B) → (runHist cfg init h).sp + 1 ≤ B
+
+/-- the full claim about the code as it is -/
+def Host_full : Prop := Host_fullFor implCfg
 
 theorem bounded_step (st : St) (B : Nat) (hB : 1 ≤ B) (hg : Good st) (hs : st.sp + 1 ≤ B)
-    (i : Inv) (hp : i.pending ≤ B) (hi : i.callPanics = false) : (step implCfg st i).sp + 1 ≤ B := by
+    (i : Inv) (hp : i.pending ≤ B) : (step implCfg st i).sp + 1 ≤ B := by
   cases i with
   | runCode c o =>
     rw [(runCode_step_exact st hg c o).1]
@@ -144,34 +149,32 @@ theorem bounded_step (st : St) (B : Nat) (hB : 1 ≤ B) (hg : Good st) (hs : st.
     rw [(run_step_exact st hg f o).1]
     cases f <;> cases o <;> simp only [Outcome.left, Inv.pending, if_true, if_false, Bool.false_eq_true] at * <;> omega
   | call o =>
-    rw [(call_neutral implCfg st o hi).1]; exact hs
+    rw [(call_neutral implCfg rfl st o).1]; exact hs
 
-/-- **sp_bounded_over_histories** — for every history without a panicking Call (guard of
-    C04-call-panic-leaks-slot): sp + 1 ≤ max 1 (the most operands one failed invocation
-    abandoned).  The NUMBER of invocations does not occur in the bound: capacity is never
-    exhausted by repetition. -/
+/-- **sp_bounded_over_histories** — for EVERY history (no guard: panicking Calls included since
+    the repair of C04-call-panic-leaks-slot): sp + 1 ≤ max 1 (the most operands one failed
+    invocation abandoned).  The NUMBER of invocations does not occur in the bound: capacity is
+    never exhausted by repetition. -/
 theorem sp_bounded_over_histories (h : List Inv) (B : Nat) (hB : 1 ≤ B)
-    (hp : ∀ i ∈ h, i.pending ≤ B) (hguard : guardHist h = true) :
+    (hp : ∀ i ∈ h, i.pending ≤ B) :
     (runHist implCfg init h).sp + 1 ≤ B := by
   suffices ∀ (h : List Inv) (st : St), Good st → st.sp + 1 ≤ B → (∀ i ∈ h, i.pending ≤ B) →
-      guardHist h = true → (runHist implCfg st h).sp + 1 ≤ B by
-    exact this h init good_init (by simp [init]) hp hguard
+      (runHist implCfg st h).sp + 1 ≤ B by
+    exact this h init good_init (by simp [init]) hp
   intro h
   induction h with
-  | nil => intro st _ hs _ _; exact hs
+  | nil => intro st _ hs _; exact hs
   | cons i h ih =>
-    intro st hg hs hp hgd
-    simp only [guardHist, List.all_cons, Bool.and_eq_true, Bool.not_eq_eq_eq_not, Bool.not_true] at hgd
+    intro st hg hs hp
     rw [runHist_cons]
     apply ih _ (good_step implCfg rfl st i hg)
-    · exact bounded_step st B hB hg hs i (hp i (List.mem_cons_self ..)) hgd.1
+    · exact bounded_step st B hB hg hs i (hp i (List.mem_cons_self ..))
     · intro j hj; exact hp j (List.mem_cons_of_mem _ hj)
-    · exact hgd.2
 
 /-- finished invocations only: sp ≤ 0 after every history — at most the one result -/
-theorem sp_le_zero_finished (h : List Inv) (hp : ∀ i ∈ h, i.pending = 0) (hguard : guardHist h = true) :
+theorem sp_le_zero_finished (h : List Inv) (hp : ∀ i ∈ h, i.pending = 0) :
     (runHist implCfg init h).sp ≤ 0 := by
-  have := sp_bounded_over_histories h 1 (Nat.le_refl 1) (fun i hi => by rw [hp i hi]; omega) hguard
+  have := sp_bounded_over_histories h 1 (Nat.le_refl 1) (fun i hi => by rw [hp i hi]; omega)
   omega
 
 /-! ### the contrasts: what grows with the number of invocations -/
@@ -203,10 +206,9 @@ theorem skip_reset_grows (c : Nat) (n : Nat) :
 
 /-- the same variant exhausts ANY capacity: no bound holds over histories of finished invocations -/
 theorem skip_reset_unbounded (B : Nat) :
-    ∃ h : List Inv, (∀ i ∈ h, i.pending = 0) ∧ guardHist h = true ∧ ¬ (runHist skipResetCfg init h).sp + 1 ≤ B := by
-  refine ⟨List.replicate (B + 1) (.runCode 7 .ok), ?_, ?_, ?_⟩
+    ∃ h : List Inv, (∀ i ∈ h, i.pending = 0) ∧ ¬ (runHist skipResetCfg init h).sp + 1 ≤ B := by
+  refine ⟨List.replicate (B + 1) (.runCode 7 .ok), ?_, ?_⟩
   · intro i hi; rw [List.eq_of_mem_replicate hi]; rfl
-  · simp [guardHist, Inv.callPanics]
   · rw [skip_reset_grows]; omega
 
 /-- the repaired defect of Run (a Run that keeps the previous result): n fresh Runs leave n values -/
@@ -220,31 +222,32 @@ theorem keep_result_grows : ∀ (n : Nat) (st : St),
     rw [List.replicate_succ, runHist_cons, ih]
     simp [step, keepResultCfg, Outcome.left]; omega
 
-/-- **call_panic_grows** — the code as it is (finding C04-call-panic-leaks-slot): n Calls of a
-    function that panics with an operand pending leave n slots, from every state -/
+/-- **call_panic_grows** — HISTORICAL, the code before the repair (preFixCallCfg, fixed finding
+    C04-call-panic-leaks-slot): n Calls of a function that panics with an operand pending leave n
+    slots, from every state -/
 theorem call_panic_grows (k : Nat) : ∀ (n : Nat) (st : St),
-    (runHist implCfg st (List.replicate n (.call (.panic (k + 1))))).sp = st.sp + n := by
+    (runHist preFixCallCfg st (List.replicate n (.call (.panic (k + 1))))).sp = st.sp + n := by
   intro n
   induction n with
   | zero => intro st; simp [runHist]
   | succ n ih =>
     intro st
     rw [List.replicate_succ, runHist_cons, ih]
-    simp [step]; omega
+    simp [step, preFixCallCfg]; omega
 
-/-- the full claim is false for the unchanged code: three panicking Calls that abandon one
-    operand each leave three slots -/
-theorem C04_counterexample_call_panic : ¬ Host_full := by
+/-- **C04_fixed_call_panic_leaked_slot** — HISTORICAL: for callFunction as it was before the
+    repair the full claim was false: three panicking Calls that abandon one operand each left
+    three slots -/
+theorem C04_fixed_call_panic_leaked_slot : ¬ Host_fullFor preFixCallCfg := by
   intro hf
   have h := hf (List.replicate 3 (.call (.panic 1))) 1 (Nat.le_refl 1)
     (fun i hi => by rw [List.eq_of_mem_replicate hi]; simp [Inv.pending])
   rw [call_panic_grows 0 3 init] at h
   simp [init] at h
 
-/-- the partial claim under the guard is `sp_bounded_over_histories`; restated against Host_full -/
-theorem C04_partial_host (h : List Inv) (B : Nat) (hB : 1 ≤ B) (hp : ∀ i ∈ h, i.pending ≤ B)
-    (hguard : guardHist h = true) : (runHist implCfg init h).sp + 1 ≤ B :=
-  sp_bounded_over_histories h B hB hp hguard
+/-- **C04_host_full** — the full claim holds for the code as it is, for every history, without a
+    guard (it replaces C04_counterexample_call_panic / C04_partial_host) -/
+theorem C04_host_full : Host_full := fun h B hB hp => sp_bounded_over_histories h B hB hp
 
 /-- the Spec itself never grows: after every history sp + 1 ≤ max 1 (pending), panicking Calls included -/
 theorem spec_bounded (B : Nat) (hB : 1 ≤ B) : ∀ (h : List Inv) (st : St), st.sp + 1 ≤ B →
@@ -286,6 +289,7 @@ example : guardHist [.runCode 1 .ok, .call .ok, .runCode 1 (.err 2), .call (.pan
 example : (runHist implCfg init [.runCode 1 .ok, .runCode 1 .ok, .call .ok, .runCode 1 (.err 2), .runCode 2 .ok]).sp = 0 := by decide
 example : (runHist skipResetCfg init [.runCode 1 .ok, .runCode 1 .ok, .runCode 1 .ok]).sp = 2 := by decide
 example : (runHist skipResetCfg init [.runCode 1 .ok, .runCode 2 .ok, .runCode 1 .ok]).sp = 0 := by decide
-example : (runHist implCfg init [.run true .ok, .call (.panic 1), .call (.panic 1)]).sp = 2 := by decide
+example : (runHist implCfg init [.run true .ok, .call (.panic 1), .call (.panic 1)]).sp = 0 := by decide
+example : (runHist preFixCallCfg init [.run true .ok, .call (.panic 1), .call (.panic 1)]).sp = 2 := by decide
 
 end Risor.C04.Host
